@@ -169,6 +169,7 @@ func (r *Receiver) Next(ctx context.Context) (Announce, error) {
 func (r *Receiver) Close() error {
 	r.announceMutex.Lock()
 	if r.closed {
+		r.announceMutex.Unlock()
 		return nil
 	}
 	r.closed = true
